@@ -19,10 +19,12 @@ def _inner(rng, qs, allow_control=True):
         q = rng.sample(qs, 2)
         if r < 0.3:
             key = rng.choice(["a", "b"])
-            ops.append(cirq.measure(q[0], key=key))
+            m_ = cirq.measure(q[0], key=key)
+            ops.append(m_.with_tags("t") if rng.random() < 0.3 else m_)   # a tag must not hide the key from scoping
             measured.append(key)
         elif r < 0.5 and measured and allow_control:
-            ops.append(cirq.X(q[0]).with_classical_controls(rng.choice(measured)))
+            c_ = cirq.X(q[0]).with_classical_controls(rng.choice(measured))
+            ops.append(c_.with_tags("t") if rng.random() < 0.3 else c_)
         elif r < 0.7:
             ops.append(cirq.CNOT(*q))
         else:
